@@ -192,6 +192,8 @@ int main(int argc, char **argv) {
         if (WIFEXITED(st) || WIFSIGNALED(st)) {
             struct th *t = getth(tid);
             t->tid = 0;
+            /* gone and reaped: its number may belong to a stranger by the time killall() runs */
+            for (int k = 0; k < nothers; k++) if (others[k] == tid) others[k] = 0;
             if (tid == root) {
                 rootstatus = st;
             }
